@@ -272,7 +272,7 @@ func TestC06Random(t *testing.T) {
 
 func TestC06Exhaustive(t *testing.T) {
 	col := coll("C06", "exhaustive")
-	maxN := pick(4, 5)
+	maxN := pick(4, 6)
 	extLists := [][]string{nil, {"b"}, {"a", "b"}, {""}, {"ab", "b"}}
 	col.Rule = fmt.Sprintf("all forests <=%d nodes over {a,b,ab} with distinct roots x %d extension lists x {md, root(single root)} x rotating target state, plus every single pre-existing root (file and dir)", maxN, len(extLists))
 	i, rot := 0, 0
